@@ -16,7 +16,7 @@ import (
 
 func init() {
 	register(&Prop{ID: "C15", Run: runC15, MinNontrivial: 500,
-		Rule:        "cases = every builder (AuthnRequest document/string/NoSig, LogoutRequest, LogoutResponse, signed and unsigned) over configuration and argument strings from the value classes, all boolean/optional combinations, 0-4 authentication contexts, clocks in fixed zones -12h..+14h with sub-second parts; oracle: serialise, re-parse with etree, compare the namespace-resolved tree (element names, exact attribute sets and values, child order, text) with the tree expected from the configuration; ID checked by pattern; non-trivial = a document was produced; distinct by parameter tuple; SigningContext().Prefix changed by the application; an earlier unsigned document re-serialised after every later build",
+		Rule:        "cases = every builder (AuthnRequest document/string/NoSig, LogoutRequest, LogoutResponse, signed and unsigned) over configuration and argument strings from the value classes, all boolean/optional combinations, 0-4 authentication contexts, clocks in fixed zones -12h..+14h with sub-second parts; oracle: serialise, re-parse with etree, compare the namespace-resolved tree (element names, exact attribute sets and values, child order, text) with the tree expected from the configuration; ID checked by pattern; non-trivial = a document was produced; distinct by parameter tuple; SigningContext().Prefix changed by the application; an earlier unsigned document re-serialised after every later build; SP clocks anywhere in years 2-9998 with a sub-second part (before 1970, around the epoch, outside the int64-nanosecond range)",
 		Assumptions: []string{"the recipient is modelled as a conforming XML processor: attribute-value normalisation (literal TAB/LF/CR -> space) is applied to the serialised text before Go's decoder, and a literal \"]]>\" inside attribute values (legal XML that Go refuses) is tolerated"}})
 }
 
@@ -177,6 +177,21 @@ func runC15(c *mon.Ctx) {
 		// clock in a fixed zone with a sub-second part
 		zone := time.FixedZone("z", (r.IntN(27)-12)*3600+[]int{0, 0, 1800, 2700}[r.IntN(4)])
 		now := base.Add(time.Duration(r.Int64N(int64(400 * 24 * time.Hour)))).Add(time.Duration(r.IntN(1e9))).In(zone)
+		if r.IntN(8) == 0 {
+			// any instant of the calendar, sub-second part included: before 1970 (negative Unix time), before 1677 and
+			// after 2262 (outside the nanosecond range), the seconds around the epoch
+			switch r.IntN(4) {
+			case 0:
+				now = time.Date(2+r.IntN(9996), time.Month(1+r.IntN(12)), 1+r.IntN(28), r.IntN(24), r.IntN(60), r.IntN(60), r.IntN(1e9), time.UTC).In(zone)
+			case 1:
+				now = time.Date(1900+r.IntN(70), time.Month(1+r.IntN(12)), 1+r.IntN(28), r.IntN(24), r.IntN(60), r.IntN(60), pick(r, []int{1, 250e6, 500e6, 999e6, 999999999}), time.UTC).In(zone)
+			case 2:
+				now = time.Unix(int64(r.IntN(5))-2, int64(pick(r, []int{0, 1, 999, 1e6, 500e6, 999999999}))).In(zone)
+			case 3:
+				now = pick(r, []time.Time{time.Date(1969, 7, 20, 20, 17, 40, 250e6, time.UTC), time.Date(1969, 12, 31, 23, 59, 59, 999e6, time.UTC), time.Date(1677, 9, 21, 0, 12, 43, 145224191, time.UTC),
+					time.Date(2262, 4, 11, 23, 47, 16, 854775808, time.UTC), time.Date(9998, 12, 31, 23, 59, 59, 999999999, time.UTC), time.Date(2, 1, 1, 0, 0, 0, 1, time.UTC)}).In(zone)
+			}
+		}
 		kind := c15Kinds[k%len(c15Kinds)]
 		ksp := NewKeyedSP(base, KeyCfg{EncField: true, SignSetter: r.IntN(2) == 0, ECSetter: r.IntN(2) == 0})
 		if k%2 == 1 {
